@@ -116,7 +116,7 @@ def diff_scenarios(draw):
         reqs.append({"tok": tok, "method": "GET" if body is None else draw(st.sampled_from(["POST", "PUT"])), "body": body,
                      "api": draw(st.sampled_from(["request", "request", "stream"])), "read": draw(st.sampled_from(["all", "all", 1, 0])),
                      "host": draw(st.sampled_from(["a.test", "a.test", "b.test"])),
-                     "then": draw(st.sampled_from([None, None, None, "read", "iter"])),
+                     "then": draw(st.sampled_from([None, None, None, "read", "iter"])), "trace": draw(st.sampled_from([False, False, True])),
                      "timeouts": draw(st.sampled_from([None, None, {"connect": 1.0, "read": 2.0, "write": 3.0, "pool": 0}]))})
         plans[tok] = draw(gen.h2_plans() if h2 else gen.h1_plans())
     seg = draw(st.sampled_from([None, None, [1], [7, 100], [3]]))
@@ -150,11 +150,16 @@ def _one(sc, sync, runtime="asyncio"):
         spec = {"method": r["method"], "url": f"{scheme}://{r['host']}/t/{r['tok']}", "api": r["api"], "read": r["read"], "timeouts": r["timeouts"], "then": r.get("then")}
         if r["body"] is not None:
             spec["content"] = r["body"]
+        if r.get("trace") and (r["api"] == "request" or r["read"] == "all") and not r.get("then"):
+            # (only for responses that are read to the end: when a body iterator is abandoned, the moment at which the runtime finalises the
+            # generator - and with it the last 'failed' trace event - is the garbage collector's business, not the library's)
+            spec["trace_log"] = []
         specs.append(spec)
     if sync:
         for s in specs:
             o = sync_request(pool, s)
             o.pop("network_stream", None)
+            o["trace"] = list(s.get("trace_log") or [])
             outs.append(o)
             snap()
         pool.close()
@@ -164,6 +169,7 @@ def _one(sc, sync, runtime="asyncio"):
             for s in specs:
                 o = await async_request(pool, s)
                 o.pop("network_stream", None)
+                o["trace"] = list(s.get("trace_log") or [])
                 outs.append(o)
                 snap()
             await pool.aclose()
@@ -212,6 +218,11 @@ def _compare(sc, label, so, ss, st_, ao, as_, at):
         eb = b["exc"] and b["exc"]["name"]
         if ea != eb:
             vio.append(V(P, "diff-exception", f"{what}: request {i}: sync raised {a['exc'] and a['exc']['type']}, {label} raised {b['exc'] and b['exc']['type']}", conn=sc["kind"], variant=label))
+        elif [t.replace("_async", "").replace("_sync", "") for t in a.get("trace", [])] != [t.replace("_async", "").replace("_sync", "") for t in b.get("trace", [])]:
+            ta, tb = a.get("trace", []), b.get("trace", [])
+            k = next((x for x in range(min(len(ta), len(tb))) if ta[x] != tb[x]), min(len(ta), len(tb)))
+            vio.append(V(P, "diff-trace", f"{what}: request {i}: the trace extension saw different events: sync #{k} {ta[k] if k < len(ta) else None!r} vs {label} "
+                         f"{tb[k] if k < len(tb) else None!r} ({len(ta)} vs {len(tb)} events)", conn=sc["kind"], variant=label))
         elif ea is None and (a["status"], a["headers"], a["body"], a.get("http_version"), a.get("reason")) != (b["status"], b["headers"], b["body"], b.get("http_version"), b.get("reason")):
             vio.append(V(P, "diff-response", f"{what}: request {i}: sync and {label} responses differ: {a['status']}/{len(a['body'])}B vs {b['status']}/{len(b['body'])}B", conn=sc["kind"], variant=label))
     for i, (a, b) in enumerate(zip(ss, as_)):
